@@ -7,7 +7,7 @@ A stage is run against an *environment* `env : Nat → In α` that fixes, for ev
 theorem lists explicitly (`LawIn`: the producer keeps `valid` and payload until the transfer).
 
 `ins t` / `outs t` are the lists of beats transferred at the input / output during cycles `0 … t-1`
-(`transfer = valid & ready`, metaSignals.h:38).  The list specification of a stage is a function
+(`transfer = valid & ready`, metaSignals.h:41).  The list specification of a stage is a function
 `List α → List β` given as a sequential transducer (`Trans`), so that it is prefix-monotone by construction and the
 driver can evaluate it incrementally; `Trans.run` of the three transducers used is characterised in `Lemmas.lean`
 (`run_idT`, `run_expandT`, `run_chunkT_full`).
